@@ -9,25 +9,43 @@
      DropOnRebuild  toOptionsWithContext rebuilds the option set without Range when the
                     resolved optional flag differs from the declared one (pre-fix)
      CanonBang      WithCanonicalKeyFunc canonicalises "!dep" as a whole; with the header
-                    canonicaliser the dependency key is then never found            *)
+                    canonicaliser the dependency key is then never found
+   and two more reproduce classes of defects seeded by reviewers (documented
+   counterexamples, not present in go-zero):
+     WideParse      convertTypeFromString parses the 8/16-bit kinds with bitSize 32 and
+                    reflect.SetInt/SetUint truncate: numbers too wide wrap around
+     MapAsStruct    core/conf describes a map[string]Struct field by the field table of its
+                    element: a map key spelled like a field of the element is lower-cased
+                    and the keys below it are left as written                        *)
 EXTENDS FieldRulesGen
 
-CONSTANTS DropOnRebuild, CanonBang
+CONSTANTS DropOnRebuild, CanonBang, WideParse, MapAsStruct
+
+\* ---- core/conf: toLowerCaseKeyMap.  Keys are lower-cased wherever the field table knows
+\* them; the keys of a map field are data and kept.  LowerS: the spellings the vectors use.
+LowerS(s) == CASE s = "A" -> "a" [] s = "B" -> "b" [] s = "M" -> "m" [] s = "K" -> "k" [] OTHER -> s
+FieldNames(v) == {v.f[i].nm : i \in DOMAIN v.f}
+\* the map key of the reported entry is taken for a field of the element
+KeyTakenForField(v) ==
+  MapAsStruct /\ v.src \in ConfSources /\ v.wrap = "map" /\ LowerS(v.mk) \in FieldNames(v)
+\* the unmarshaller finds the field keys of the reported entry (it looks for the tag names)
+KeysReach(v) == v.ksp = "lower" \/ (v.src \in ConfSources /\ ~KeyTakenForField(v))
+StoredMk(v) == IF KeyTakenForField(v) THEN LowerS(v.mk) ELSE v.mk
 
 \* ---- what the unmarshaller sees in its input map
 PresentV(src, x) == x.t # "absent" /\ ~(src \in FormSources /\ x.t = "str" /\ x.s = "")
-PresentName(v, nm) ==
-  \/ \E i \in DOMAIN v.f : v.f[i].nm = nm /\ PresentV(v.src, v.in[i])
+PresentName(v, nm, reach) ==
+  \/ reach /\ \E i \in DOMAIN v.f : v.f[i].nm = nm /\ PresentV(v.src, v.in[i])
   \/ nm \in SeqSet(v.xk)
 \* internal/encoding turns a YAML null into the empty string
 Seen(src, x) == IF src \in {"yaml", "confyaml"} /\ x.t = "null" THEN VStr("") ELSE x
 
 \* ---- fieldoptions.go: toOptionsWithContext
-Resolve(v, i) ==
+Resolve(v, i, reach) ==
   LET f      == v.f[i]
-      selfOn == PresentV(v.src, v.in[i])
+      selfOn == reach /\ PresentV(v.src, v.in[i])
       baseOn == IF f.opt = "notdep" /\ v.src = "header" /\ CanonBang THEN FALSE
-                ELSE PresentName(v, f.dep)
+                ELSE PresentName(v, f.dep, reach)
       opt    == CASE f.opt = "none"   -> FALSE
                   [] f.opt = "plain"  -> TRUE
                   [] f.opt = "notdep" -> baseOn
@@ -42,8 +60,16 @@ Bad == [ok |-> FALSE, val |-> VNil]
 Good(r) == [ok |-> TRUE, val |-> r]
 
 \* convertTypeFromString(kind, text of x)
+\* what SetInt/SetUint leave in an 8/16-bit variable (n in halves, a whole number)
+Modulus(k) == IF k \in {"int8", "uint8"} THEN 256 ELSE 65536
+Wrapped(k, n) ==
+  LET m == ((n \div 2) % Modulus(k)) IN
+  IF k \in {"int8", "int16"} /\ m >= Modulus(k) \div 2 THEN 2 * (m - Modulus(k)) ELSE 2 * m
 FromText(f, x) ==
-  CASE f.k \in IntKinds   -> IF x.t \in {"num", "numstr"} /\ Fits(f, x.n) THEN Good(VNum(x.n)) ELSE Bad
+  CASE f.k \in IntKinds   -> IF x.t \in {"num", "numstr"} /\ Fits(f, x.n) THEN Good(VNum(x.n))
+                             ELSE IF /\ WideParse /\ HasMax(f.k) /\ x.t \in {"num", "numstr"} /\ x.n % 2 = 0
+                                     /\ (f.k \in UnsignedKinds => x.n >= 0)
+                                  THEN Good(VNum(Wrapped(f.k, x.n))) ELSE Bad
     [] f.k \in FloatKinds -> IF x.t \in {"num", "numstr"} THEN Good(VNum(x.n)) ELSE Bad
     [] f.k = "string"     -> IF x.t = "str" THEN Good(VStr(x.s)) ELSE Good(V("other", 0, ""))
     [] f.k = "bool"       -> IF x.t = "bool" THEN Good(VBool(x.n))
@@ -84,11 +110,19 @@ ViaMap(f, rng, x) ==
          [] OTHER -> Bad
 
 \* ---- unmarshaler.go: processNamedField for field i
-Field(v, i) ==
+\* lists: fillSlice / fillSliceWithDefault (every call builds a new slice, see FieldRulesAlias)
+ListField(v, f, x, r) ==
+  IF ~PresentV(v.src, x) THEN (IF f.hd THEN Good(Default(f)) ELSE IF r.optional THEN Good(Zero(f)) ELSE Bad)
+  ELSE IF x.t = "null" THEN (IF r.optional THEN Good(Zero(f)) ELSE Bad)
+  ELSE IF x.t = "list" THEN Good(x) ELSE Bad
+
+\* reach: the keys of the entry reach the unmarshaller in the spelling it looks for
+Field(v, i, reach) ==
   LET f == v.f[i]
-      x == Seen(v.src, v.in[i])
-      r == Resolve(v, i)
+      x == IF reach THEN Seen(v.src, v.in[i]) ELSE VAbsent
+      r == Resolve(v, i, reach)
   IN IF r.err THEN Bad
+     ELSE IF f.k \in ListKinds THEN ListField(v, f, x, r)
      ELSE IF ~PresentV(v.src, x) THEN
             (IF f.hd THEN Good(Default(f)) ELSE IF r.optional THEN Good(Zero(f)) ELSE Bad)
      ELSE IF x.t = "null" THEN (IF r.optional THEN Good(Zero(f)) ELSE Bad)
@@ -96,10 +130,16 @@ Field(v, i) ==
      ELSE IF v.src \in MapSources THEN ViaMap(f, r.range, x)
      ELSE ViaDoc(f, r.range, x)
 
+\* the map wrapper holds two entries with the same content: v.mk (reported) and "k2"
 Impl(v) ==
-  IF \A i \in DOMAIN v.f : Field(v, i).ok
-  THEN [acc |-> TRUE, pan |-> FALSE, out |-> [i \in DOMAIN v.f |-> Field(v, i).val]]
-  ELSE [acc |-> FALSE, pan |-> FALSE, out |-> <<>>]
+  LET reach == KeysReach(v) IN
+  IF /\ \A i \in DOMAIN v.f : Field(v, i, reach).ok
+     /\ v.wrap = "map" => \A i \in DOMAIN v.f : Field(v, i, TRUE).ok
+  THEN [acc |-> TRUE, pan |-> FALSE,
+        out |-> [i \in DOMAIN v.f |-> IF v.wrap = "map" /\ StoredMk(v) # v.mk
+                                      THEN V("nowrapper", 0, "") ELSE Field(v, i, reach).val],
+        mk |-> IF v.wrap = "map" THEN <<StoredMk(v), "k2">> ELSE <<>>]
+  ELSE NoRes
 
 INext == GNextWith(Impl)
 ISpec == FInit /\ [][INext]_fvars
